@@ -434,17 +434,46 @@ def split_winding(rep, prog):
             mid = _letter(n["name"])
     if mid is None:
         raise AnalysisBroken("split_edge: id of the new node not found")
-    found = 0
+    from ..model import expand
+    # decision sites: if/else statements and conditional expressions whose arms create faces; sites that test the same
+    # (expanded) condition are one decision
+    groups = {}
     for s in walk(fn["body"]):
-        if s.get("k") != "IfStmt" or not isinstance(s.get("else"), dict):
+        if s.get("k") == "IfStmt" and isinstance(s.get("else"), dict):
+            cond, arms = s["cond"], (s["then"], s["else"])
+        elif s.get("k") == "ConditionalOperator" and len(s.get("c", [])) == 3:
+            cond, arms = s["c"][0], (s["c"][1], s["c"][2])
+        else:
             continue
-        br = []
-        for b in (s["then"], s["else"]):
-            br.append([[_letter(render(a)) for a in call_args(x)] for x in walk(b) if is_call(x) and x.get("callee") == "cell::create_face"])
+        br = [[[_letter(render(a)) for a in call_args(x)] for x in walk(b) if is_call(x) and x.get("callee") == "cell::create_face"] for b in arms]
+        if not br[0] or not br[1] or len(br[0]) != len(br[1]):
+            continue
+        from ..model import stable_locals
+        st_ = stable_locals(fn)
+        c = strip(cond)
+        pos = True
+        for _ in range(6):
+            while c.get("k") == "ParenExpr" and c.get("c"):
+                c = strip(c["c"][0])
+            if c.get("k") == "UnaryOperator" and c.get("op") == "!":
+                pos = not pos
+                c = strip(c["c"][0])
+            elif c.get("k") == "DeclRefExpr" and c["ref"].get("did") in st_ and "bool" in (c.get("t") or ""):
+                c = strip(st_[c["ref"]["did"]])       # a hoisted flag: its defining test
+            else:
+                break
+        key = render(c).replace(" ", "")
+        g = groups.setdefault(key, {"cond": c, "site": s, "then": [], "else": []})
+        g["then" if pos else "else"] += br[0]
+        g["else" if pos else "then"] += br[1]
+    found = 0
+    for key, g in groups.items():
+        br = [g["then"], g["else"]]
+        s = g["site"]
         if len(br[0]) != 2 or len(br[1]) != 2:
             continue
         found += 1
-        c = strip(s["cond"])
+        c = g["cond"]
         txt = render(c).replace(" ", "").replace("(", "").replace(")", "")
         m = re.match(r"^n_([a-z])_pos-n_([a-z])_pos\.crossn_([a-z])_pos-n_([a-z])_pos\.dot(\w+?)(>=|>)0\.?0*$", txt)
         if not m or m.group(2) != m.group(4):
@@ -462,8 +491,8 @@ def split_winding(rep, prog):
                 if len(missing) != 1:
                     bad.append("face %s is not a sub-triangle of (%s,%s,%s)" % (f, x, a, b))
                     continue
-                g = [missing[0] if y == mid else y for y in f]
-                if _parity(g, ref) != want:
+                g_ = [missing[0] if y == mid else y for y in f]
+                if _parity(g_, ref) != want:
                     bad.append("face (%s) is wound %s the triangle (%s,%s,%s) in the %s branch" % (",".join(f), "against" if want == 1 else "like", x, a, b, "then" if want == 1 else "else"))
             if sorted(tuple(sorted(f)) for f in faces) != sorted([tuple(sorted([x, a, mid])), tuple(sorted([x, mid, b]))]):
                 bad.append("branch does not create the faces {%s,%s,%s} and {%s,%s,%s}" % (x, a, mid, x, mid, b))
